@@ -116,7 +116,8 @@ class Harness:
         self.cfg = meta.get("cfg", "default")
         # per-harness CBMC budget. The declared value is about 2x the time measured on an idle machine; the floor keeps a check
         # that shares the machine with other checks (or with a busy CI host) from ending undecided on the unchanged tree
-        self.timeout = max(int(meta.get("timeout", "900")), 1800 if meta.get("tier", "quick") == "quick" else 3600)
+        self.declared_timeout = int(meta.get("timeout", "900"))
+        self.timeout = max(self.declared_timeout, 1800 if meta.get("tier", "quick") == "quick" else 3600)
         self.funcs = [f for f in meta.get("funcs", "").split(";") if f]
         self.note = meta.get("note", "")
         self.contract = meta.get("contract", "")
